@@ -107,7 +107,7 @@ func (g ABCIGenesis) Spec() GenesisSpec {
 	for _, sd := range g.Distr.Subs {
 		for _, s := range sd.Sources {
 			for k := 0; k < 40; k++ {
-				if s.Type == tBase && s.Id == FreshAddr(7000+k).String() {
+				if s.Type == tBase && s.Id == FreshAddr(60000+k).String() {
 					spec.ExtraBalances = append(spec.ExtraBalances, banktypes.Balance{Address: s.Id, Coins: sdk.NewCoins(sdk.NewInt64Coin(Denom, int64(5000+k)))})
 				}
 			}
